@@ -630,6 +630,10 @@ def run_property(pid, harnesses, tier, seed, level="model_checking", assumptions
                 r.status = "violation"
             elif all(i.get("replay_status") == "not-reproduced" and i in ub_new for i in real_fail[:done]):
                 r.status = "hold-ub"
+        elif r.bound_failed:
+            # only baseline UB / known findings failed besides an unwinding assertion: the bound is still too small
+            r.status = "bound"
+            broken.append((h.name, "bound", r.note))
         else:
             r.status = "hold" if r.witness_ok else "vacuous"
             if r.status == "vacuous":
